@@ -467,16 +467,27 @@ fn hist_packet(ssrc: u32, idx: u64) -> RtpPacket {
 }
 
 /// Session-level history: two SSRCs, rustrtc + reference senders, rustrtc + reference receivers.
-fn check_history(profile: SrtpProfile, ks: &KeySet, start: u16, events: &[(u8, u8)], st: &mut Stats) {
+/// `late_b`: the second SSRC does not exist at the start - its first packet is protected only
+/// after all of the first SSRC's packets, and delivered only when the walk first names it - so
+/// a stream can first appear after its sibling has crossed a 2^16 wrap.
+fn check_history(profile: SrtpProfile, ks: &KeySet, start: u16, events: &[(u8, u8)], late_b: bool, st: &mut Stats) {
     let pname = profile_name(profile);
-    let replay = json!({"kind": "history", "profile": pname, "key": ks.name, "start": start,
+    let replay = json!({"kind": "history", "profile": pname, "key": ks.name, "start": start, "late_second_ssrc": late_b,
         "events": events.iter().map(|(s, e)| json!([s, STEP_NAMES[*e as usize]])).collect::<Vec<_>>()});
     st.add("histories", 1);
     // deliveries: implicit first packet of each SSRC, then the walk
     let mut cur = [start as i64; 2];
-    let mut deliveries: Vec<(usize, u64, &'static str)> = vec![(0, start as u64, "first"), (1, start as u64, "first")];
+    let mut deliveries: Vec<(usize, u64, &'static str)> = vec![(0, start as u64, "first")];
+    let mut b_started = !late_b;
+    if b_started {
+        deliveries.push((1, start as u64, "first"));
+    }
     for (s, e) in events {
         let s = *s as usize;
+        if s == 1 && !b_started {
+            b_started = true;
+            deliveries.push((1, start as u64, "first"));
+        }
         let n = apply_step(cur[s], *e);
         if n < 0 {
             st.add("histories_cut_at_negative_index", 1);
@@ -498,8 +509,14 @@ fn check_history(profile: SrtpProfile, ks: &KeySet, start: u16, events: &[(u8, u
     let mut rtx = new_ref(profile, ks);
     let mut prot: HashMap<(usize, u64), (Vec<u8>, RtpPacket, Vec<u8>)> = HashMap::new();
     let n = sets[0].len().max(sets[1].len());
-    for k in 0..n {
-        for s in 0..2 {
+    // protection order: interleaved, or (late second SSRC) all of the first SSRC, then the second
+    let order: Vec<(usize, usize)> = if late_b {
+        (0..sets[0].len()).map(|k| (k, 0)).chain((0..sets[1].len()).map(|k| (k, 1))).collect()
+    } else {
+        (0..n).flat_map(|k| [(k, 0), (k, 1)]).collect()
+    };
+    {
+        for (k, s) in order {
             let Some(&idx) = sets[s].get(k) else { continue };
             let p = hist_packet(SSRCS[s], idx);
             let plain = p.marshal().unwrap_or_default();
@@ -766,7 +783,10 @@ fn part_c(tier: Tier) -> (Stats, Value) {
                 .into_par_iter()
                 .fold(Stats::default, |mut st, k| {
                     let ev: Vec<(u8, u8)> = nth_seq(k, 14, *depth).into_iter().map(|x| (x / 7, x % 7)).collect();
-                    check_history(*profile, &ks, *start, &ev, &mut st);
+                    check_history(*profile, &ks, *start, &ev, false, &mut st);
+                    if ev.iter().any(|(s, _)| *s == 1) {
+                        check_history(*profile, &ks, *start, &ev, true, &mut st);
+                    }
                     st
                 })
                 .reduce(Stats::default, Stats::merge)
@@ -1074,7 +1094,7 @@ fn replay(path: &std::path::Path) -> i32 {
             "history" => {
                 let ev: Vec<(u8, u8)> = r["events"].as_array().cloned().unwrap_or_default().iter()
                     .map(|e| (e[0].as_u64().unwrap_or(0) as u8, STEP_NAMES.iter().position(|n| Some(*n) == e[1].as_str()).unwrap_or(0) as u8)).collect();
-                check_history(profile, &ks, r["start"].as_u64().unwrap_or(0) as u16, &ev, &mut st)
+                check_history(profile, &ks, r["start"].as_u64().unwrap_or(0) as u16, &ev, r["late_second_ssrc"].as_bool().unwrap_or(false), &mut st)
             }
             "ctx-history" => check_ctx_history(profile, &ks, r["roc0"].as_u64().unwrap_or(0) as u32, r["start"].as_u64().unwrap_or(0) as u16, &parse_steps(&r["steps"]), &mut st),
             "roc-pair" => {
